@@ -87,6 +87,17 @@ func runC12(c *Ctx) {
 		c.Count("annotated_chain_workspaces", 1)
 		checkC12WS(c, sw, fmt.Sprintf("c12a%d", i))
 	})
+	// lane: member chains up to depth 3 whose every key is declared (constructor key or assignment), with the same key name
+	// reused at several depths; members are cross-compared too (as on the testdata)
+	nM := c.N(150, 3000)
+	parallel(nM, 14, func(i int) {
+		r := root.Fork(uint64(9000000 + i))
+		sw := ScopeWSLoose(c12MemberFiles(r))
+		sw.DeclMember = true
+		c.Eval(1)
+		c.Count("member_chain_workspaces", 1)
+		checkC12WS(c, sw, fmt.Sprintf("c12m%d", i))
+	})
 	c.Set("testdata_dirs", tdirs)
 	c.Finish("generated workspaces as in C05, workspaces in which globals are read and written as _G.name while same-named locals, parameters and loop variables shadow them, "+
 		"workspaces in which unannotated locals / globals take their value from annotated symbols of the other locality (assignment, call of a function with ---@return, ---@field access), "+
@@ -198,6 +209,10 @@ func checkC12WS(c *Ctx, sw *ScopeWS, tag string) {
 			p := posAt(f.Src, t.Off)
 			own := Location{URI: uri, Range: f.TokRange(t)}
 			cls := c12Class(nameClass(f, t), isVar)
+			if sw.DeclMember && strings.HasPrefix(cls, "member:") {
+				cls = "declared-" + cls
+				c.Count("declared_member_positions", 1)
+			}
 			if viaG && !sw.Loose {
 				cls = "var:global-via-_G"
 				c.Count("global_via_G_positions", 1)
@@ -509,5 +524,95 @@ func c12AnnoFiles(r *Rng) map[string]string {
 	}
 	fmt.Fprintf(&other, "print(SrcGlob%d, MkGlob%d())\n", k, k)
 	files["other.lua"] = other.String()
+	return files
+}
+
+// c12MemberFiles: a table (local with a require alias in a second file, or global) whose members are declared down to
+// depth 3, through constructor keys and through assignments, the same key names recurring at every depth, and read back
+// through full chains.
+func c12MemberFiles(r *Rng) map[string]string {
+	k := r.Intn(1000)
+	keys := []string{fmt.Sprintf("port%d", k), fmt.Sprintf("host%d", k), fmt.Sprintf("limit%d", k)}
+	subs := []string{fmt.Sprintf("client%d", k), fmt.Sprintf("server%d", k)}
+	global := r.Bool()
+	root := fmt.Sprintf("cfg%d", k)
+	if global {
+		root = fmt.Sprintf("GCfg%d", k)
+	}
+	var sb strings.Builder
+	decl := "local "
+	if global {
+		decl = ""
+	}
+	ctor := r.Bool()
+	var chains []string
+	if ctor {
+		fmt.Fprintf(&sb, "%s%s = {\n", decl, root)
+		for _, key := range keys {
+			if r.Chance(2, 3) {
+				fmt.Fprintf(&sb, "  %s = %d,\n", key, r.Intn(100))
+				chains = append(chains, root+"."+key)
+			}
+		}
+		for _, sub := range subs {
+			fmt.Fprintf(&sb, "  %s = {", sub)
+			for _, key := range keys {
+				if r.Chance(2, 3) {
+					fmt.Fprintf(&sb, " %s = %d,", key, r.Intn(100))
+					chains = append(chains, root+"."+sub+"."+key)
+				}
+			}
+			sb.WriteString(" },\n")
+		}
+		sb.WriteString("}\n")
+	} else {
+		fmt.Fprintf(&sb, "%s%s = {}\n", decl, root)
+		for _, key := range keys {
+			if r.Chance(2, 3) {
+				fmt.Fprintf(&sb, "%s.%s = %d\n", root, key, r.Intn(100))
+				chains = append(chains, root+"."+key)
+			}
+		}
+		for _, sub := range subs {
+			fmt.Fprintf(&sb, "%s.%s = {}\n", root, sub)
+			for _, key := range keys {
+				if r.Chance(2, 3) {
+					if r.Bool() {
+						fmt.Fprintf(&sb, "%s.%s.%s = %d\n", root, sub, key, r.Intn(100))
+					} else {
+						fmt.Fprintf(&sb, "%s.%s.%s = function(a) return a end\n", root, sub, key)
+					}
+					chains = append(chains, root+"."+sub+"."+key)
+				}
+			}
+		}
+	}
+	n := r.Range(2, 6)
+	for i := 0; i < n && len(chains) > 0; i++ {
+		a, b := r.Pick(chains), r.Pick(chains)
+		switch r.Intn(3) {
+		case 0:
+			fmt.Fprintf(&sb, "print(%s, %s)\n", a, b)
+		case 1:
+			fmt.Fprintf(&sb, "%s = %s\n", a, b)
+		default:
+			fmt.Fprintf(&sb, "local function use%d_%d()\n  return %s\nend\nprint(use%d_%d)\n", k, i, a, k, i)
+		}
+	}
+	files := map[string]string{}
+	var other strings.Builder
+	alias := root
+	if !global {
+		fmt.Fprintf(&sb, "return %s\n", root)
+		alias = fmt.Sprintf("m%d", k)
+		fmt.Fprintf(&other, "local %s = require(\"conf%d\")\n", alias, k)
+	}
+	for i := 0; i < r.Range(1, 4) && len(chains) > 0; i++ {
+		ch := r.Pick(chains)
+		ch = alias + ch[len(root):]
+		fmt.Fprintf(&other, "print(%s)\n", ch)
+	}
+	files[fmt.Sprintf("conf%d.lua", k)] = sb.String()
+	files["use.lua"] = other.String()
 	return files
 }
